@@ -29,6 +29,10 @@ pub struct PullOutcome {
     pub verdict: Option<(&'static str, &'static str, String)>, // (property, kind, detail)
     pub got_calls: Vec<usize>,
     pub want_calls: Vec<usize>,
+    /// Some(whether the output completed) when the pipeline ran to quiescence without panicking
+    pub completed: Option<bool>,
+    /// (Pulls sent by for_each, Data received) at the output
+    pub demand: (usize, usize),
 }
 
 pub fn run_one(pipe: &Pipe) -> PullOutcome {
@@ -58,6 +62,8 @@ pub fn run_one(pipe: &Pipe) -> PullOutcome {
                 },
                 got_calls: vec![],
                 want_calls: vec![],
+                completed: None,
+                demand: (0, 0),
             };
         },
     };
@@ -83,6 +89,8 @@ pub fn run_one(pipe: &Pipe) -> PullOutcome {
             verdict: None,
             got_calls: vec![],
             want_calls: vec![],
+            completed: None,
+            demand: (0, 0),
         };
     }
     // the real thing
@@ -106,6 +114,8 @@ pub fn run_one(pipe: &Pipe) -> PullOutcome {
         verdict: None,
         got_calls,
         want_calls,
+        completed: None,
+        demand: (0, 0),
     };
     match r {
         Err(_) => {
@@ -137,6 +147,10 @@ pub fn run_one(pipe: &Pipe) -> PullOutcome {
                     })
                 })
                 .unwrap_or(false);
+            out.completed = Some(completed);
+            if let Some(e) = tap_edge {
+                out.demand = (g.edges[e].pulls_up as usize, g.edges[e].data_down as usize);
+            }
             if !g.violations.is_empty() {
                 let v = &g.violations[0];
                 out.verdict = Some((v.props[0], v.kind, format!("{} on {}: {}", v.kind, v.edge_label, v.detail)));
@@ -330,14 +344,21 @@ pub fn make_pipe(seed: u64, index: u64) -> Pipe {
 
 pub fn run(o: &Opts, rep: &mut Report) {
     let known = load_known(&o.known);
-    let total: u64 = o.cases.unwrap_or(if o.tier == "thorough" { 3_000_000 } else { 200_000 });
+    let total: u64 = o.cases.unwrap_or(match (o.prop.as_str(), o.tier.as_str()) {
+        ("C14", "thorough") => 1_000_000,
+        ("C14", _) => 60_000,
+        (_, "thorough") => 3_000_000,
+        _ => 200_000,
+    });
     let nthreads = o.threads.max(1);
     let seed = o.seed;
     let prop = o.prop.clone();
-    if let Some(d) = pipe_macro_test() {
-        rep.add_violation(&prop, "pipe/not-left-to-right-application", &d, "E2m:pipe-macro", J::s(&d));
+    if prop != "C14" {
+        if let Some(d) = pipe_macro_test() {
+            rep.add_violation(&prop, "pipe/not-left-to-right-application", &d, "E2m:pipe-macro", J::s(&d));
+        }
+        rep.bump("pipe-macro-left-to-right-test", 1);
     }
-    rep.bump("pipe-macro-left-to-right-test", 1);
     let mut reports: Vec<Report> = vec![];
     std::thread::scope(|s| {
         let mut hs = vec![];
@@ -376,6 +397,35 @@ pub fn run(o: &Opts, rep: &mut Report) {
                     }
                     if t == 0 && rep.samples.len() < 4 && out.want.len() >= 2 {
                         rep.samples.push(outcome_json(&out).set("case_id", J::s(&id)));
+                    }
+                    if prop == "C14" {
+                        // demand conservation at the output of a whole pull pipeline (every stage is
+                        // one of the operators C14 names, every leaf is from_iter, the sink is
+                        // for_each: one Pull per message received): at quiescence every Pull has been
+                        // answered, i.e. the (finite) pipeline has delivered its end
+                        if let Some(done) = out.completed {
+                            rep.bump("pipelines: demand at the output judged", 1);
+                            if !done {
+                                let sig = "pipeline/pull-unanswered-at-quiescence".to_string();
+                                let d = format!(
+                                    "for_each sent {} Pulls and received {} Data and no end: its last Pull was never answered ({})",
+                                    out.demand.0,
+                                    out.demand.1,
+                                    pipe.show()
+                                );
+                                if let Some(k) = known.iter().find(|k| k.signature == sig && k.property == prop) {
+                                    let e = rep.known_hits.entry(sig).or_insert((0, k.text.clone()));
+                                    e.0 += 1;
+                                } else {
+                                    rep.add_violation(&prop, &sig, &d, &id, outcome_json(&out));
+                                }
+                            }
+                        }
+                        if let Some(("HARNESS", _, detail)) = &out.verdict {
+                            rep.harness_faults.push(format!("{} [{}]", detail, id));
+                        }
+                        i += nthreads as u64;
+                        continue;
                     }
                     if let Some((p, kind, detail)) = &out.verdict {
                         if *p == "HARNESS" {
@@ -429,6 +479,10 @@ fn pipe_stage_names(p: &Pipe) -> Vec<&'static str> {
                 v.push("same source value subscribed repeatedly (concat)");
                 walk(q, v);
             },
+            Src0::SelfProduct(q) => {
+                v.push("same source value subscribed again from inside its own deliveries (overlapping subscriptions)");
+                walk(q, v);
+            },
         }
         for s in &p.stages {
             match s {
@@ -472,6 +526,18 @@ pub fn replay(_o: &Opts, parts: &[&str]) -> i32 {
     let pipe = make_pipe(seed, index);
     let out = run_one(&pipe);
     println!("{}", outcome_json(&out).pretty());
+    if parts[1] == "C14" {
+        return match out.completed {
+            Some(false) => {
+                println!(
+                    "violation: C14 pull-unanswered-at-quiescence for_each sent {} Pulls, received {} Data and no end",
+                    out.demand.0, out.demand.1
+                );
+                1
+            },
+            _ => 0,
+        };
+    }
     match &out.verdict {
         Some((p, kind, detail)) => {
             println!("violation: {} {} {}", p, kind, detail);
